@@ -22,6 +22,9 @@ var alphabet = []string{
 	"call(!)", "call((n(X), !))", "\\+ n(X)", "once(n(X))",
 	"(n(X) -> m(Y) ; Y = e)", "(fail -> true ; n(X))",
 	"findall(Z, (n(Z), !), _)", "catch((n(X), !), _, true)", "r(X)",
+	// appended later (indices of saved cases stay valid): a cut that reaches call/1, \\+ and findall/3
+	// through a variable bound before the goal is converted - local to that call, but it does cut there
+	"(C = !, call((n(X), C, true)))", "(C = !, \\+ (n(X), C, X > 1))", "(C = !, findall(Z, (n(Z), C, true), [X]))",
 }
 
 var base = []string{"n(1)", "n(2)", "n(3)", "m(a)", "m(b)", "r(X) :- n(X), X > 1, !", "r(9)"}
@@ -36,6 +39,50 @@ type Skel struct {
 	Disj     bool  `json:"disj,omitempty"`     // Body2 is the second top-level disjunct of the first clause
 	Trailing bool  `json:"trailing,omitempty"` // trailing fact t(e1, e2)
 	Query    int   `json:"query"`
+	// Shape brackets Body1's conjunction: a preorder list of left-subtree sizes, one per inner node
+	// (empty = right-nested as the parser reads "a, b, c").
+	Shape []int `json:"shape,omitempty"`
+}
+
+// shapes enumerates every bracketing of n goals except the right-nested one.
+func shapes(n int) [][]int {
+	var rec func(n int) [][]int
+	rec = func(n int) [][]int {
+		if n <= 1 {
+			return [][]int{{}}
+		}
+		var out [][]int
+		for k := 1; k < n; k++ {
+			for _, l := range rec(k) {
+				for _, r := range rec(n - k) {
+					out = append(out, append(append([]int{k}, l...), r...))
+				}
+			}
+		}
+		return out
+	}
+	var out [][]int
+	for _, sh := range rec(n) {
+		right := true
+		for _, k := range sh {
+			right = right && k == 1
+		}
+		if !right {
+			out = append(out, sh)
+		}
+	}
+	return out
+}
+
+func shapeText(gs []string, shape *[]int) string {
+	if len(gs) == 1 {
+		return gs[0]
+	}
+	k := (*shape)[0]
+	*shape = (*shape)[1:]
+	l := shapeText(gs[:k], shape)
+	r := shapeText(gs[k:], shape)
+	return "(" + l + ", " + r + ")"
 }
 
 func seqText(ix []int) string {
@@ -57,6 +104,16 @@ func (s Skel) program() *gen.Program {
 	switch {
 	case s.Disj:
 		p.Clauses = append(p.Clauses, gen.MustParse("t(X, Y) :- ( "+seqText(s.Body1)+" ; "+seqText(s.Body2)+" )"))
+	case len(s.Shape) > 0:
+		gs := make([]string, len(s.Body1))
+		for i, k := range s.Body1 {
+			gs[i] = alphabet[k]
+		}
+		sh := append([]int{}, s.Shape...)
+		p.Clauses = append(p.Clauses, gen.MustParse("t(X, Y) :- "+shapeText(gs, &sh)))
+		if s.Second {
+			p.Clauses = append(p.Clauses, gen.MustParse("t(X, Y) :- "+seqText(s.Body2)))
+		}
 	default:
 		p.Clauses = append(p.Clauses, gen.MustParse("t(X, Y) :- "+seqText(s.Body1)))
 		if s.Second {
@@ -120,7 +177,7 @@ func init() {
 func TestProp(t *testing.T) {
 	r := h.Start(t, "C03")
 	defer r.Finish(t)
-	r.Rule("(a) every control skeleton up to the size bound: programs t/2 of one clause, two clauses, or one clause with a top-level disjunctive body, optionally a trailing fact, bodies = all sequences up to length L over a 16-goal alphabet (nondeterministic sources, tests, !, fail, call(!), call((n(X),!)), \\+, once, if-then-else, findall and catch with an inner cut, a callee that cuts), each under 6 queries (plain, after a nondeterministic goal, before one, under once, under \\+, as left disjunct); quick: first body L<=2, second L<=1; thorough: L<=3 single, L<=2 x L<=2 pairs. (b) rapid-sampled larger programs with cuts as direct conjuncts of clause bodies / top-level disjuncts and inside call/N, \\+, once, findall/bagof/setof, catch, with if-then-else, recursion templates with cuts (first solution, cut in a recursive clause, repeat...!, double cut, cut in the last clause). Oracle: the reference machine's ISO cut semantics; compared: answer sequence and termination. Non-trivial: the reference executed a cut that removed at least one choice point, or a cut-opaque construct in a run that backtracked and answered. Distinct by program and query.",
+	r.Rule("(a) every control skeleton up to the size bound: programs t/2 of one clause, two clauses, or one clause with a top-level disjunctive body, optionally a trailing fact, bodies = all sequences up to length L over a 19-goal alphabet (nondeterministic sources, tests, !, fail, call(!), call((n(X),!)), \\+, once, if-then-else, findall and catch with an inner cut, a callee that cuts, a cut reaching call/1, \\+ and findall/3 through a variable bound beforehand), each under 6 queries (plain, after a nondeterministic goal, before one, under once, under \\+, as left disjunct); quick: first body L<=2, second L<=1; thorough: L<=3 single, L<=2 x L<=2 pairs; plus every non-right-nested bracketing ((a,b),c), (((a,b),c),d), ((a,b),(c,d)) ... of 3..4 (thorough 5) goals from {n(X), m(Y), X\\=1, !, true} holding a cut, with a trailing fact or a second clause. (b) rapid-sampled larger programs with cuts as direct conjuncts of clause bodies / top-level disjuncts and inside call/N, \\+, once, findall/bagof/setof, catch, with if-then-else, recursion templates with cuts (first solution, cut in a recursive clause, repeat...!, double cut, cut in the last clause). Oracle: the reference machine's ISO cut semantics; compared: answer sequence and termination. Non-trivial: the reference executed a cut that removed at least one choice point, or a cut-opaque construct in a run that backtracked and answered. Distinct by program and query.",
 		"the reference machine's cut-barrier model (DESIGN.md 2.3.1)",
 		"only the cut placements for which the property claims clause-level cut are generated: a bare ! is never placed inside a branch of -> or a nested ;")
 	if r.Shard() == 0 {
@@ -179,6 +236,39 @@ func TestProp(t *testing.T) {
 		for _, b2 := range sequences(L2) {
 			runProg(Skel{Body1: b1, Body2: b2, Second: true})
 			runProg(Skel{Body1: b1, Body2: b2, Disj: true})
+		}
+	}
+	// bracketings: every non-right-nested association of 3..LB goals over a reduced alphabet, bodies with a cut
+	small := []int{0, 1, 3, 4, 6} // n(X), m(Y), X \\= 1, !, true
+	LB := 4
+	if !r.Quick() {
+		LB = 5
+	}
+	for n := 3; n <= LB; n++ {
+		var seqs [][]int
+		var rec func(pre []int)
+		rec = func(pre []int) {
+			if len(pre) == n {
+				for _, k := range pre {
+					if k == 4 {
+						seqs = append(seqs, append([]int{}, pre...))
+						return
+					}
+				}
+				return
+			}
+			for _, k := range small {
+				rec(append(pre, k))
+			}
+		}
+		rec(nil)
+		for _, sh := range shapes(n) {
+			for _, b := range seqs {
+				runProg(Skel{Body1: b, Shape: sh, Trailing: true})
+				if n <= 4 {
+					runProg(Skel{Body1: b, Shape: sh, Body2: []int{0}, Second: true})
+				}
+			}
 		}
 	}
 	if r.Failed() {
